@@ -3,17 +3,17 @@
  * @tier quick
  * @functions FSE_readNCount FSE_readNCount_bmi2 FSE_readNCount_body
  * @bounds per instance: header of exactly HB arbitrary bytes (4, 9 quick; 6 thorough; fewer than 8 go through the zero-padded copy path of the real function), tail-aligned; requested maxSymbolValue = MAXSV (3, 5 quick; 9 thorough) with the normalized-counter array EXACTLY MAXSV+1 entries, so a write one entry too far leaves the object; main loop bound MAXSV+3 iterations is exact (one symbol per iteration)
- * @bounds placement: instances without suffix put the header at the very end of its object (an over-read leaves the object; but CBMC 6 cuts every path on which the function's own end-of-input test forms `ip + n` beyond one-past-the-end, so those paths are NOT covered there); `_mid` instances leave 8 readable bytes behind the header: every path is covered for the counter-array writes and the functional post-conditions, an over-read of <= 8 bytes is then not detected
+ * @bounds placement: instances without suffix put the header at the very end of its object (an over-read leaves the object; but CBMC 6 cuts every path on which the function's own end-of-input test forms `ip + n` beyond one-past-the-end, so those paths are NOT covered there); (headers shorter than 8 bytes are copied by the function into a local 8-byte buffer, where the same applies and cannot be avoided); `_mid` instances leave 8 readable bytes behind the header: every path is covered for the counter-array writes and the functional post-conditions, an over-read of <= 8 bytes is then not detected
  * @outside headers longer than HB bytes (probe: 8 arbitrary bytes undecided in 10 min); maxSymbolValue up to 255 (Huffman weights)
  * @link lib/common/zstd_common.c lib/common/error_private.c
+ * @ignore arithmetic overflow on signed - in \(iend
  * @mem loop
  * @cbmc --unwind 12 --unwindset __builtin_memset.0:30,__builtin_memcpy.0:12,harness.0:12,harness.1:40,harness.2:40,harness.3:16,harness.4:16
  * @timeout 400
  * @memgb 6
- * @instance sv3_hb4 -DMAXSV=3 -DHB=4
- * @instance sv5_hb4_mid timeout=400 -DMAXSV=5 -DHB=4 -DBACKSLACK=8
+ * @instance sv3_hb4 allowub=1 -DMAXSV=3 -DHB=4
+ * @instance sv5_hb4 timeout=400 allowub=1 -DMAXSV=5 -DHB=4
  * @instance sv3_hb8_mid timeout=300 -DMAXSV=3 -DHB=8 -DBACKSLACK=8
- * @instance sv5_hb4 tier=thorough timeout=900 allowub=1 -DMAXSV=5 -DHB=4
  * @instance sv3_hb8 tier=thorough timeout=900 allowub=1 -DMAXSV=3 -DHB=8
  * @instance sv5_hb9 allowub=1 tier=thorough timeout=1800 memgb=12 -DMAXSV=5 -DHB=9
  * @instance sv9_hb6 allowub=1 tier=thorough timeout=1500 memgb=12 cbmc="--unwind 14" -DHB=6 -DMAXSV=9
